@@ -61,7 +61,8 @@ fn frac_set(tier: Tier) -> Vec<String> {
             v.push(format!("{:0width$}", x, width = len as usize));
         }
     }
-    if tier == Tier::Thorough {
+    {
+        // structured longer fractions (both tiers): leading zeros in front of every word-class combination
         let reps: Vec<u32> = (1..100).chain([100, 101, 110, 121, 180, 181, 200, 280, 300, 999, 1000, 1001, 1100, 1999, 2000, 2021, 9999, 10000, 10001, 12345, 20021, 99999, 100000, 100001, 123456, 999999]).collect();
         for len in [5usize, 6] {
             for r in &reps {
@@ -150,6 +151,25 @@ pub fn run(tier: Tier) -> i32 {
                     }
                 }
             }
+            // English: the same fractions dictated with the zero alias 'o'
+            if l == L::En && (n < 10 || n == 120) {
+                for (d, spoken) in fracs.iter().zip(fr_spoken.iter()) {
+                    // a lone 'o' between the separator and an ordinary word has no number word next to it: by
+                    // the 'o' rule (C18) it is then an ordinary word, so that case is not a decimal
+                    if !d.contains('0') || d == "0" {
+                        continue;
+                    }
+                    acc.states += 1;
+                    acc.traces += 1;
+                    let spoken_o = spoken.split(' ').map(|w| if w == "zero" { "o" } else { w }).collect::<Vec<_>>().join(" ");
+                    let s = format!("xyzzy {int_text} {} {spoken_o} plugh", l.sep());
+                    let exp = format!("xyzzy {n}{}{d} plugh", l.mark());
+                    let got = guard(|| replace_numbers_in_text(&s, &lang, 0.0)).unwrap_or_else(|p| p);
+                    if got != exp {
+                        ctx.report(acc, Violation { lang: l.code().into(), entry: "replace_text".into(), input: s, threshold: Some(0.0), clause: "rewrite(int sep frac) = int mark frac, zeros dictated as 'o'".into(), expected: exp, observed: got });
+                    }
+                }
+            }
             // negative cases: the separator word stays a word
             let sep = l.sep();
             let zero_frac = spell_fraction(l, "15");
@@ -193,7 +213,7 @@ pub fn run(tier: Tier) -> i32 {
     let cov = json!({
         "exhaustive": true,
         "rule": "every (language, integer part from I, fraction digit string from D) rendered by the reference spellers (digit by digit in en/de, zeros + number otherwise), rewritten at threshold 0 in up to 3 frames; occurrence value checked at threshold 1000; plus negative cases per integer",
-        "bounds": {"integers": ints.len(), "fractions": fracs.len(), "fraction_lengths": format!("all digit strings of length <= {}; thorough adds structured lengths 5-6", 4)},
+        "bounds": {"integers": ints.len(), "fractions": fracs.len(), "fraction_lengths": format!("all digit strings of length <= {}; plus structured lengths 5-6 (zeros in front of ~125 representative numbers)", 4)},
     });
     ctx.finish(acc, cov, vec![
         "integer parts are a representative set (quick) or all n < 1000 plus the 16^3 group product (thorough), not all n < 10^9".into(),
